@@ -90,6 +90,10 @@ pub struct Scenario {
     /// (so the target is outside the configuration's own directory); config-file mode only
     #[serde(default)]
     pub conf_in_subdir: bool,
+    /// options mode: what `oal.toml` lies in the working directory all the same — 0 this run's
+    /// settings, 1 other settings (another base, main and target), 2 no TOML at all, 3 none
+    #[serde(default)]
+    pub decoy_config: u8,
 }
 
 fn conf_subdir(scn: &Scenario) -> bool {
@@ -208,7 +212,21 @@ fn execute_inner(c: &Cfg, world: &World, scn: &Scenario, planted: Option<&[u8]>)
     world.reset("", &scn.files);
     let root = world.root.canonicalize().expect("root");
     let config = config_text(scn, &root);
-    world.write(if conf_subdir(scn) { "conf/oal.toml" } else { "oal.toml" }, &config);
+    if scn.config_mode == 0 {
+        // everything is on the command line; an `oal.toml` that happens to lie in the working
+        // directory (every workspace folder has one) is none of this run's business
+        match scn.decoy_config {
+            1 => world.write("oal.toml", "[api]\nmain = \"nowhere.oal\"\ntarget = \"ignored-by-options.yaml\"\nbase = \"decoy-base.yaml\"\n"),
+            2 => world.write("oal.toml", "this is = not [ toml"),
+            3 => {}
+            _ => world.write("oal.toml", &config),
+        }
+        if scn.decoy_config == 1 {
+            world.write("decoy-base.yaml", "openapi: 3.0.3\ninfo:\n  title: Decoy\n  version: 9.9.9\npaths: {}\n");
+        }
+    } else {
+        world.write(if conf_subdir(scn) { "conf/oal.toml" } else { "oal.toml" }, &config);
+    }
     let rootp = format!("{}/", root.display());
     if scn.with_base {
         let b = if scn.fault == Fault::MalformedBase { "{ not: [yaml" } else { BASE_YAML };
@@ -640,8 +658,9 @@ pub fn check_lsp(world: &World, scn: &Scenario, o0: &Outcome) -> (Option<Violati
     if scn.folder_b {
         world.write("fb/oal.toml", CONFIG);
     }
-    if conf_subdir(scn) {
-        // a language server finds a folder's configuration at its top: the same settings there
+    {
+        // a language server finds a folder's configuration at its top: the run's settings there
+        // (the CLI may have had them on its command line, or from `conf/`)
         let root = world.root.canonicalize().expect("root");
         let mut plain = scn.clone();
         plain.conf_in_subdir = false;
@@ -1023,7 +1042,11 @@ pub fn run(seed: u64, run: u64) -> Report {
         symlinked: None,
         conf_spelling: *wl.pick(&[0, 0, 1, 1, 2, 3]),
         conf_in_subdir: wl.chance(1, 4),
+        decoy_config: *wl.pick(&[0, 1, 1, 2, 3]),
     };
+    if scn.config_mode == 0 && scn.decoy_config != 0 {
+        probes.push("options_mode_beside_an_unrelated_configuration_file".into());
+    }
     if conf_subdir(&scn) {
         probes.push("target_outside_the_configuration_directory".into());
     }
